@@ -85,31 +85,12 @@ fn copy_tree(from: &Path, to: &Path) {
     }
 }
 
-fn config_json(options: u8) -> String {
-    let mut opts = vec!["\"on_invalid_id_type\":\"error\"".to_string()];
-    if options & 16 != 0 {
-        opts.push("\"persisted_documents\": {\"algorithm\": \"md5\", \"include_extra_info\": true}".into());
-    } else if options & 1 != 0 {
-        opts.push("\"persisted_documents\": {}".into());
-    }
-    if options & 2 != 0 {
-        opts.push("\"module\": \"commonjs\"".into());
-    }
-    if options & 4 != 0 {
-        opts.push("\"include_file_extensions_in_import_statements\": true".into());
-    }
-    if options & 8 != 0 {
-        opts.push("\"generated_file_header\": \"generated by the simulated project\"".into());
-    }
-    format!("{{ \"project_root\": \"./src\", \"schema\": \"./schema.graphql\", \"schema_extensions\": [\"./schema-ext.graphql\"], \"options\": {{{}}} }}\n", opts.join(", "))
-}
-
 fn materialise(project: &Project, options: u8, tag: u64) -> World {
     match project {
         Project::Pool { files, schema, ext } => {
             let w = World::create(tag);
             if options != 0 {
-                std::fs::write(w.abs("isograph.config.json"), config_json(options)).expect("harness: config");
+                std::fs::write(w.abs("isograph.config.json"), crate::world::config_json(options)).expect("harness: config");
             }
             for d in [0usize, 1, 2, 3] {
                 let _ = std::fs::create_dir_all(w.abs(DIRS[d]));
